@@ -1,0 +1,74 @@
+//go:build verif
+
+package node
+
+// Contracts for the deductive checks in /verif (tool: govc). Comment-only; build tag `verif`.
+// Spec functions (wf_ctx, sig_ok, fee_of, tx_same, ...) live in /verif/spec/node.spec.
+
+//@ func commonValidation0(ctx)
+//@   nopanic
+//@   requires wf_ctx(ctx)
+//@   modifies ctx.SenderPubKey
+//@   allocates uint256.Int
+//@   ensures tx_same(ctx.Tx)                                                                                 [C03,C05]
+//@   ensures result == nil ==> len(ctx.Tx.From) == 20 && len(ctx.Tx.To) == 20 && u(ctx.Tx.Amount) < 2^255    [C09]
+//@   ensures result == nil ==> u(ctx.Tx.GasPrice) == govGasPrice[ctx.GovHandler] && u(ctx.Tx.GasPrice) < 2^128   [C16]
+//@   ensures result == nil ==> ctx.Tx.Gas < 2^63 && fee_of(ctx.Tx) >= govMinTrxGas[ctx.GovHandler] * govGasPrice[ctx.GovHandler]   [C16]
+//@   ensures result == nil && ctx.Exec ==> sig_ok(ctx.Tx, ctx.ChainID)                                       [C03]
+
+//@ func commonValidation1(ctx)
+//@   nopanic
+//@   requires wf_ctx(ctx)
+//@   requires u(ctx.Tx.GasPrice) < 2^128 && ctx.Tx.Gas < 2^63 && u(ctx.Tx.Amount) < 2^255
+//@   allocates uint256.Int
+//@   ensures result == nil ==> ctx.Sender.Nonce == ctx.Tx.Nonce                                              [C04]
+//@   ensures result == nil ==> fee_of(ctx.Tx) + u(ctx.Tx.Amount) <= u(ctx.Sender.Balance)                   [C16,C05]
+
+//@ func validateTrx(ctx)
+//@   nopanic
+//@   requires wf_ctx(ctx)
+//@   modifies ctx.SenderPubKey
+//@   allocates uint256.Int
+//@   ensures tx_same(ctx.Tx)                                                                                 [C03,C05]
+//@   ensures result == nil && ctx.Exec ==> sig_ok(ctx.Tx, ctx.ChainID)                                       [C03]
+//@   ensures result == nil ==> ctx.Sender.Nonce == ctx.Tx.Nonce                                              [C04]
+//@   ensures result == nil ==> u(ctx.Tx.GasPrice) == govGasPrice[ctx.GovHandler] && fee_of(ctx.Tx) >= govMinTrxGas[ctx.GovHandler] * govGasPrice[ctx.GovHandler]   [C16]
+//@   ensures result == nil ==> fee_of(ctx.Tx) + u(ctx.Tx.Amount) <= u(ctx.Sender.Balance) && u(ctx.Tx.GasPrice) < 2^128 && ctx.Tx.Gas < 2^63   [C16,C05]
+//@   ensures result == nil ==> ctx.Tx.Type >= 1 && ctx.Tx.Type <= 8                                         [C09]
+
+//@ func postRunTrx(ctx)
+//@   nopanic
+//@   requires wf_ctx(ctx)
+//@   requires u(ctx.Tx.GasPrice) < 2^128 && ctx.Tx.Gas < 2^63
+//@   requires native_tx(ctx) ==> fee_of(ctx.Tx) <= u(ctx.Sender.Balance)
+//@   modifies everything
+//@   preserves Trx.*, Account.Code, govGasPrice, govMinTrxGas, TrxContext.Tx, TrxContext.Sender, TrxContext.Receiver, TrxContext.Exec, TrxContext.ChainID, TrxContext.AcctHandler, TrxContext.GovHandler
+//@   ensures result == nil                                                                                   [C05]
+//@   ensures old(native_tx(ctx)) ==> ctx.Sender.Nonce == old(ctx.Sender.Nonce) + 1 || old(ctx.Sender.Nonce) == 18446744073709551615   [C04]
+//@   ensures old(native_tx(ctx)) ==> u(ctx.Sender.Balance) == old(u(ctx.Sender.Balance)) - old(fee_of(ctx.Tx))       [C16]
+//@   ensures old(native_tx(ctx)) ==> ctx.GasUsed == ctx.Tx.Gas                                                    [C16]
+//@   ensures !old(native_tx(ctx)) ==> ctx.Sender.Nonce == old(ctx.Sender.Nonce) && u(ctx.Sender.Balance) == old(u(ctx.Sender.Balance)) && ctx.GasUsed == old(ctx.GasUsed)   [C04,C16]
+
+//@ func runTrx(ctx)
+//@   nopanic
+//@   requires wf_ctx(ctx)
+//@   requires ctx.Exec ==> sig_ok(ctx.Tx, ctx.ChainID)                                                       [C03]
+//@   requires ctx.Sender.Nonce == ctx.Tx.Nonce                                                               [C04]
+//@   requires fee_of(ctx.Tx) + u(ctx.Tx.Amount) <= u(ctx.Sender.Balance) && u(ctx.Tx.GasPrice) < 2^128 && ctx.Tx.Gas < 2^63
+//@   modifies everything
+//@   preserves Trx.*, govGasPrice, govMinTrxGas, TrxContext.Tx, TrxContext.Sender, TrxContext.Exec
+//@   ensures result == nil && old(native_tx(ctx)) ==> ctx.Sender.Nonce == old(ctx.Sender.Nonce) + 1 || old(ctx.Sender.Nonce) == 18446744073709551615   [C04]
+//@   ensures result == nil && ctx.Exec && !old(native_tx(ctx)) ==> ctx.Sender.Nonce == old(ctx.Sender.Nonce) + 1   [C04]
+//@   ensures result != nil ==> ctx.Sender.Nonce == old(ctx.Sender.Nonce)                                     [C04,C05]
+//@   ensures result != nil ==> u(ctx.Sender.Balance) == old(u(ctx.Sender.Balance))                           [C05,C16]
+//@   ensures result == nil && old(native_tx(ctx)) ==> ctx.GasUsed == ctx.Tx.Gas                                   [C16]
+//@   ensures result == nil && !old(native_tx(ctx)) ==> ctx.GasUsed <= ctx.Tx.Gas                                  [C16]
+
+//@ func (txe *TrxExecutor) ExecuteSync(ctx)
+//@   nopanic
+//@   requires wf_ctx(ctx)
+//@   modifies everything
+//@   preserves Trx.*, govGasPrice, govMinTrxGas, TrxContext.Tx, TrxContext.Sender, TrxContext.Exec
+//@   ensures result == nil && (ctx.Exec || old(native_tx(ctx))) ==> old(ctx.Sender.Nonce) == ctx.Tx.Nonce && (ctx.Sender.Nonce == old(ctx.Sender.Nonce) + 1 || old(ctx.Sender.Nonce) == 18446744073709551615)   [C04]
+//@   ensures result != nil ==> ctx.Sender.Nonce == old(ctx.Sender.Nonce) && u(ctx.Sender.Balance) == old(u(ctx.Sender.Balance))   [C04,C05]
+//@   ensures result == nil ==> old(u(ctx.Tx.GasPrice) == govGasPrice[ctx.GovHandler] && fee_of(ctx.Tx) >= govMinTrxGas[ctx.GovHandler] * govGasPrice[ctx.GovHandler]) && ctx.GasUsed <= ctx.Tx.Gas   [C16]
